@@ -36,7 +36,7 @@ def PState.drop (st : PState N) (t : Tok N) (ts : List (Tok N)) : PState N :=
 
 /-! ### sequencing -/
 
-theorem P.bind_ok {x : P N α} {f : α → P N β} {st st' : PState N} {a : α}
+theorem P.bind_ok_s {x : P N α} {f : α → P N β} {st st' : PState N} {a : α}
     (h : x st = .ok (a, st')) : P.bind x f st = f a st' := by
   simp only [P.bind, h]
 
@@ -82,19 +82,19 @@ theorem matchAnyKind_none {ks : List TK} {st : PState N} (h : CurNotIn st ks) :
 theorem expectToken_err {k : TK} {st : PState N} (h : CurNotIn st [k]) :
     expectToken k st = .err ⟨.expectedToken k, errLocOf st⟩ := by
   unfold expectToken
-  simp only [P.bind_eq, P.bind_ok (matchKind_none h)]
+  simp only [P.bind_eq, P.bind_ok_s (matchKind_none h)]
   rfl
 
 theorem expectAny_err {ks : List TK} {st : PState N} (h : CurNotIn st ks) :
     expectAny ks st = .err ⟨.expectedOneOfTokens ks, errLocOf st⟩ := by
   unfold expectAny
-  simp only [P.bind_eq, P.bind_ok (matchAnyKind_none h)]
+  simp only [P.bind_eq, P.bind_ok_s (matchAnyKind_none h)]
   rfl
 
 theorem expectToken_ok {k : TK} {st : PState N} {t : Tok N} {ts : List (Tok N)}
     (hs : st.toks = t :: ts) (h : t.kind = k) : expectToken k st = .ok (t, st.drop t ts) := by
   unfold expectToken
-  simp only [P.bind_eq, P.bind_ok (matchAndConsume_some (m := isKind k) hs (by simp [isKind, h]))]
+  simp only [P.bind_eq, P.bind_ok_s (matchAndConsume_some (m := isKind k) hs (by simp [isKind, h]))]
   rfl
 
 /-- **(a)** `expect_eol` in a state whose current token is neither `,`/`.` nor a line break -/
@@ -105,7 +105,7 @@ theorem expectEol_err {st : PState N} {t : Tok N} {ts : List (Tok N)} (hs : st.t
     (CurNotIn.cons hs h).mono (by simp)
   have h2 : ¬ t.kind = .newline := by simp at h; exact h.2.2
   unfold expectEol
-  simp only [P.bind_eq, P.bind_ok (matchAnyKind_none h1)]
+  simp only [P.bind_eq, P.bind_ok_s (matchAnyKind_none h1)]
   simp [expectTokenOrEnd, P.bind, current, hs, h2, failWith, errLocOf]
 
 /-- **(a)** `expect_eol` after a `,`/`.` that is not followed by a line break (or the end) -/
@@ -114,13 +114,13 @@ theorem expectEol_err_after_sep {st : PState N} {s t : Tok N} {ts : List (Tok N)
     expectEol st = .err ⟨.expectedToken .newline, .token t⟩ := by
   unfold expectEol
   simp only [P.bind_eq,
-    P.bind_ok (matchAndConsume_some (m := isAnyKind [.comma, .dot]) hs (by simpa [isAnyKind] using h))]
+    P.bind_ok_s (matchAndConsume_some (m := isAnyKind [.comma, .dot]) hs (by simpa [isAnyKind] using h))]
   simp [expectTokenOrEnd, P.bind, current, PState.drop, ht, failWith, errLocOf]
 
 /-- `expect_eol` at the end of input accepts -/
 theorem expectEol_end {st : PState N} (hs : st.toks = []) : expectEol st = .ok ((), st) := by
   unfold expectEol
-  simp only [P.bind_eq, P.bind_ok (matchAnyKind_none (CurNotIn.nil hs))]
+  simp only [P.bind_eq, P.bind_ok_s (matchAnyKind_none (CurNotIn.nil hs))]
   simp [expectTokenOrEnd, P.bind, current, hs]
   rfl
 
@@ -146,7 +146,7 @@ theorem parseStatement_unexpected (rec : Rec N) {st : PState N} {t : Tok N} {ts 
     | simp [failWith, errLocOf, hs]
 
 /-- `parse_statement` returns `None` without consuming at `Else`, `Newline` and the end -/
-theorem parseStatement_none (rec : Rec N) {st : PState N}
+theorem parseStatement_none_s (rec : Rec N) {st : PState N}
     (h : ∀ t, st.toks.head? = some t → t.kind = .else_ ∨ t.kind = .newline) :
     parseStatement rec st = .ok (none, st) := by
   unfold parseStatement
@@ -169,19 +169,19 @@ def expressionStartKinds : List TK := .minus :: .not :: primaryStartKinds
 theorem parsePronoun_none {st : PState N} (h : CurNotIn st [.pronoun]) :
     parsePronoun st = .ok (none, st) := by
   unfold parsePronoun
-  simp only [P.bind_eq, P.bind_ok (matchKind_none h)]
+  simp only [P.bind_eq, P.bind_ok_s (matchKind_none h)]
   rfl
 
 theorem parseCommonIdentifier_none {st : PState N} (h : CurNotIn st [.commonPrefix]) :
     parseCommonIdentifier st = .ok (none, st) := by
   unfold parseCommonIdentifier
-  simp only [P.bind_eq, P.bind_ok (matchKind_none h)]
+  simp only [P.bind_eq, P.bind_ok_s (matchKind_none h)]
   rfl
 
 theorem parseSimpleIdentifier_none {st : PState N} (h : CurNotIn st [.word]) :
     parseSimpleIdentifier st = .ok (none, st) := by
   unfold parseSimpleIdentifier
-  simp only [P.bind_eq, P.bind_ok (matchKind_none h)]
+  simp only [P.bind_eq, P.bind_ok_s (matchKind_none h)]
   rfl
 
 theorem capitalizedLoopBody_nil (rec : Rec N) {st : PState N} (h : CurNotIn st [.word]) :
@@ -195,26 +195,26 @@ theorem capitalizedLoopBody_nil (rec : Rec N) {st : PState N} (h : CurNotIn st [
       simp at this
       simp [isCapitalizedWord, this]
   unfold capitalizedLoopBody
-  simp only [P.bind_eq, P.bind_ok h1]
+  simp only [P.bind_eq, P.bind_ok_s h1]
   rfl
 
 theorem parseCapitalizedIdentifier_none (rec : Rec N) {st : PState N} (h : CurNotIn st [.word]) :
     parseCapitalizedIdentifier rec st = .ok (none, st) := by
   unfold parseCapitalizedIdentifier
-  simp only [P.bind_eq, P.bind_ok (capitalizedLoopBody_nil rec h)]
+  simp only [P.bind_eq, P.bind_ok_s (capitalizedLoopBody_nil rec h)]
   rfl
 
 theorem parseVariableName_none (rec : Rec N) {st : PState N}
     (h : CurNotIn st [.commonPrefix, .word]) : parseVariableName rec st = .ok (none, st) := by
   unfold parseVariableName
-  simp only [P.bind_eq, P.bind_ok (parseCommonIdentifier_none (h.mono (by simp))),
-    P.bind_ok (parseCapitalizedIdentifier_none rec (h.mono (by simp)))]
+  simp only [P.bind_eq, P.bind_ok_s (parseCommonIdentifier_none (h.mono (by simp))),
+    P.bind_ok_s (parseCapitalizedIdentifier_none rec (h.mono (by simp)))]
   exact parseSimpleIdentifier_none (h.mono (by simp))
 
 theorem parseIdentifier_none (rec : Rec N) {st : PState N}
     (h : CurNotIn st [.pronoun, .commonPrefix, .word]) : parseIdentifier rec st = .ok (none, st) := by
   unfold parseIdentifier
-  simp only [P.bind_eq, P.bind_ok (parseVariableName_none rec (h.mono (by simp)))]
+  simp only [P.bind_eq, P.bind_ok_s (parseVariableName_none rec (h.mono (by simp)))]
   exact parsePronoun_none (h.mono (by simp))
 
 /-- `expect_identifier` where no identifier starts -/
@@ -222,15 +222,15 @@ theorem expectIdentifier_err (rec : Rec N) {st : PState N}
     (h : CurNotIn st [.pronoun, .commonPrefix, .word]) :
     expectIdentifier rec st = .err ⟨.expectedIdentifier, errLocOf st⟩ := by
   unfold expectIdentifier
-  simp only [P.bind_eq, P.bind_ok (parseIdentifier_none rec h)]
+  simp only [P.bind_eq, P.bind_ok_s (parseIdentifier_none rec h)]
   rfl
 
 theorem parseIdentifierOrFunctionCall_none (rec : Rec N) {st : PState N}
     (h : CurNotIn st [.pronoun, .commonPrefix, .word]) :
     parseIdentifierOrFunctionCall rec st = .ok (none, st) := by
   unfold parseIdentifierOrFunctionCall
-  simp only [P.bind_eq, P.bind_ok (parsePronoun_none (h.mono (by simp))),
-    P.bind_ok (parseVariableName_none rec (h.mono (by simp)))]
+  simp only [P.bind_eq, P.bind_ok_s (parsePronoun_none (h.mono (by simp))),
+    P.bind_ok_s (parseVariableName_none rec (h.mono (by simp)))]
   rfl
 
 theorem parseLiteralExpression_none {st : PState N}
@@ -252,7 +252,7 @@ theorem parseLiteralExpression_none {st : PState N}
 theorem parseArrayPopExpr_none (rec : Rec N) {st : PState N} (h : CurNotIn st [.roll]) :
     parseArrayPopExpr rec st = .ok (none, st) := by
   unfold parseArrayPopExpr
-  simp only [P.bind_eq, P.bind_ok (matchKind_none h)]
+  simp only [P.bind_eq, P.bind_ok_s (matchKind_none h)]
   rfl
 
 /-- **(d)** `parse_non_subscript_primary_expression` where no primary expression starts -/
@@ -261,9 +261,9 @@ theorem parseNonSubscriptPrimary_err (rec : Rec N) {st : PState N}
     parseNonSubscriptPrimary rec st = .err ⟨.expectedPrimaryExpression, errLocOf st⟩ := by
   unfold parseNonSubscriptPrimary
   simp only [P.bind_eq,
-    P.bind_ok (parseIdentifierOrFunctionCall_none rec (h.mono (by simp [primaryStartKinds]))),
-    P.bind_ok (parseLiteralExpression_none (h.mono (by simp [primaryStartKinds]))),
-    P.bind_ok (parseArrayPopExpr_none rec (h.mono (by simp [primaryStartKinds])))]
+    P.bind_ok_s (parseIdentifierOrFunctionCall_none rec (h.mono (by simp [primaryStartKinds]))),
+    P.bind_ok_s (parseLiteralExpression_none (h.mono (by simp [primaryStartKinds]))),
+    P.bind_ok_s (parseArrayPopExpr_none rec (h.mono (by simp [primaryStartKinds])))]
   rfl
 
 /-- **(d)** `parse_primary_expression` where no primary expression starts -/
@@ -279,7 +279,7 @@ theorem parseUnary_err (rec : Rec N) {st : PState N} (h : CurNotIn st expression
     h.mono (by simp [expressionStartKinds])
   have h2 : CurNotIn st primaryStartKinds :=
     h.mono (by intro k hk; simp [expressionStartKinds, hk])
-  simp only [P.bind_eq, P.bind_ok (matchAnyKind_none h1), P.bind_err (parsePrimary_err rec h2)]
+  simp only [P.bind_eq, P.bind_ok_s (matchAnyKind_none h1), P.bind_err (parsePrimary_err rec h2)]
 
 theorem parseBinaryExpression_err (rec : Rec N) (lvl : Level) {next : P N (Expr N)}
     {st : PState N} {e : ParseErr N} (h : next st = .err e) :
@@ -304,7 +304,7 @@ theorem parseExpression_err (rec : Rec N) {st : PState N} (h : CurNotIn st expre
 /-- the current location can be read (no crash of `current_loc`) -/
 def LocOk (st : PState N) : Prop := st.last.idx ≤ ulen st.src ∧ st.last.lineStart ≤ st.last.idx
 
-theorem currentLoc_ok {st : PState N} (h : LocOk st) :
+theorem currentLoc_ok_s {st : PState N} (h : LocOk st) :
     currentLoc st = .ok (⟨st.last.line, st.last.idx - st.last.lineStart⟩, st) := by
   unfold currentLoc
   simp [h.1, h.2]
@@ -315,7 +315,7 @@ theorem parseStatement_put_missing_into (rec : Rec N) {st st2 : PState N} {p : T
     (he : parseExpression rec (st.drop p ts) = .ok (v, st2)) (h : CurNotIn st2 [.into]) :
     parseStatement rec st = .err ⟨.expectedToken .into, errLocOf st2⟩ := by
   unfold parseStatement parsePutAssignment
-  simp only [P.bind_eq, P.map_eq, P.pure_eq, P.pure, P.bind, current, hs, List.head?_cons, hp,
+  simp only [P.bind_eq, P.map_eq, P.pure_eq_s, P.pure, P.bind, current, hs, List.head?_cons, hp,
     consume_some (m := isKind .put) hs (by simp [isKind, hp]), he, expectToken_err h]
 
 /-- **(d)** `put` not followed by an expression -/
@@ -324,7 +324,7 @@ theorem parseStatement_put_missing_operand (rec : Rec N) {st : PState N} {p : To
     (h : CurNotIn (st.drop p ts) expressionStartKinds) :
     parseStatement rec st = .err ⟨.expectedPrimaryExpression, errLocOf (st.drop p ts)⟩ := by
   unfold parseStatement parsePutAssignment
-  simp only [P.bind_eq, P.map_eq, P.pure_eq, P.pure, P.bind, current, hs, List.head?_cons, hp,
+  simp only [P.bind_eq, P.map_eq, P.pure_eq_s, P.pure, P.bind, current, hs, List.head?_cons, hp,
     consume_some (m := isKind .put) hs (by simp [isKind, hp]), parseExpression_err rec h]
 
 /-- **(c)** `let <lhs>` not followed by `be` -/
@@ -333,7 +333,7 @@ theorem parseStatement_let_missing_be (rec : Rec N) {st st2 : PState N} {l : Tok
     (he : parseAssignmentLhs rec (st.drop l ts) = .ok (d, st2)) (h : CurNotIn st2 [.be]) :
     parseStatement rec st = .err ⟨.expectedToken .be, errLocOf st2⟩ := by
   unfold parseStatement parseLetAssignment
-  simp only [P.bind_eq, P.map_eq, P.pure_eq, P.pure, P.bind, current, hs, List.head?_cons, hl,
+  simp only [P.bind_eq, P.map_eq, P.pure_eq_s, P.pure, P.bind, current, hs, List.head?_cons, hl,
     consume_some (m := isKind .let_) hs (by simp [isKind, hl]), he, expectToken_err h]
 
 /-- **(c)** `build <identifier>` not followed by `up` -/
@@ -342,7 +342,7 @@ theorem parseStatement_build_missing_up (rec : Rec N) {st st2 : PState N} {b : T
     (he : expectIdentifier rec (st.drop b ts) = .ok (d, st2)) (h : CurNotIn st2 [.up]) :
     parseStatement rec st = .err ⟨.expectedToken .up, errLocOf st2⟩ := by
   unfold parseStatement parseBuild parseBuildKnockHelper
-  simp only [P.bind_eq, P.map_eq, P.pure_eq, P.pure, P.bind, current, hs, List.head?_cons, hb,
+  simp only [P.bind_eq, P.map_eq, P.pure_eq_s, P.pure, P.bind, current, hs, List.head?_cons, hb,
     consume_some (m := isKind .build) hs (by simp [isKind, hb]), he, expectToken_err h]
 
 /-- **(c)** `knock <identifier>` not followed by `down` -/
@@ -351,7 +351,7 @@ theorem parseStatement_knock_missing_down (rec : Rec N) {st st2 : PState N} {b :
     (he : expectIdentifier rec (st.drop b ts) = .ok (d, st2)) (h : CurNotIn st2 [.down]) :
     parseStatement rec st = .err ⟨.expectedToken .down, errLocOf st2⟩ := by
   unfold parseStatement parseKnock parseBuildKnockHelper
-  simp only [P.bind_eq, P.map_eq, P.pure_eq, P.pure, P.bind, current, hs, List.head?_cons, hb,
+  simp only [P.bind_eq, P.map_eq, P.pure_eq_s, P.pure, P.bind, current, hs, List.head?_cons, hb,
     consume_some (m := isKind .knock) hs (by simp [isKind, hb]), he, expectToken_err h]
 
 /-- **(d)** `build`/`knock` not followed by an identifier -/
@@ -360,7 +360,7 @@ theorem parseStatement_build_missing_identifier (rec : Rec N) {st : PState N} {b
     (h : CurNotIn (st.drop b ts) [.pronoun, .commonPrefix, .word]) :
     parseStatement rec st = .err ⟨.expectedIdentifier, errLocOf (st.drop b ts)⟩ := by
   unfold parseStatement parseBuild parseBuildKnockHelper
-  simp only [P.bind_eq, P.map_eq, P.pure_eq, P.pure, P.bind, current, hs, List.head?_cons, hb,
+  simp only [P.bind_eq, P.map_eq, P.pure_eq_s, P.pure, P.bind, current, hs, List.head?_cons, hb,
     consume_some (m := isKind .build) hs (by simp [isKind, hb]), expectIdentifier_err rec h]
 
 /-- **(c)** `take it` not followed by `to` -/
@@ -371,7 +371,7 @@ theorem parseStatement_take_missing_to (rec : Rec N) {st : PState N} {tk it : To
     parseStatement rec st =
       .err ⟨.expectedToken .to, errLocOf ((st.drop tk (it :: ts)).drop it ts)⟩ := by
   unfold parseStatement parseTakeItToTheTop expectTokenIspelled
-  simp only [P.bind_eq, P.map_eq, P.pure_eq, P.pure, P.bind, current, hs, List.head?_cons, hk,
+  simp only [P.bind_eq, P.map_eq, P.pure_eq_s, P.pure, P.bind, current, hs, List.head?_cons, hk,
     consume_some (m := isKind .take) hs (by simp [isKind, hk]),
     matchAndConsume_some (st := st.drop tk (it :: ts)) (m := isIspelled (str% "it")) rfl hit,
     expectToken_err h]
@@ -387,7 +387,7 @@ theorem parseStatement_take_missing_top (rec : Rec N) {st : PState N} {tk it to 
       .err ⟨.expectedToken .top, errLocOf ((((st.drop tk (it :: to :: the :: ts)).drop it
         (to :: the :: ts)).drop to (the :: ts)).drop the ts)⟩ := by
   unfold parseStatement parseTakeItToTheTop expectTokenIspelled
-  simp only [P.bind_eq, P.map_eq, P.pure_eq, P.pure, P.bind, current, hs, List.head?_cons, hk,
+  simp only [P.bind_eq, P.map_eq, P.pure_eq_s, P.pure, P.bind, current, hs, List.head?_cons, hk,
     consume_some (m := isKind .take) hs (by simp [isKind, hk]),
     matchAndConsume_some (st := st.drop tk (it :: to :: the :: ts))
       (m := isIspelled (str% "it")) rfl hit,
@@ -405,7 +405,7 @@ theorem parseStatement_break_missing_down (rec : Rec N) {st : PState N} {b it : 
     parseStatement rec st =
       .err ⟨.expectedToken .down, errLocOf ((st.drop b (it :: ts)).drop it ts)⟩ := by
   unfold parseStatement parseBreak
-  simp only [P.bind_eq, P.map_eq, P.pure_eq, P.pure, P.bind, current, hs, List.head?_cons, hk,
+  simp only [P.bind_eq, P.map_eq, P.pure_eq_s, P.pure, P.bind, current, hs, List.head?_cons, hk,
     consume_some (m := isKind .break_) hs (by simp [isKind, hk]),
     matchAndConsume_some (st := st.drop b (it :: ts)) (m := isIspelled (str% "it")) rfl hit,
     expectToken_err h]
@@ -436,7 +436,7 @@ theorem parseFancyComparison_missing_as (rec : Rec N) (lhs : Expr N) {st : PStat
     matchAndConsume_some (st := st.drop a (b :: ts)) (m := isAnyKind [.big, .small]) rfl
       (by rcases hb with hb | hb <;> simp [isAnyKind, hb])]
   rcases hb with hb | hb <;>
-    simp only [hb, getBinaryOperator, P.ofOption, P.pure, P.pure_eq, expectToken_err h]
+    simp only [hb, getBinaryOperator, P.ofOption, P.pure, P.pure_eq_s, expectToken_err h]
 
 /-- **(d)** `say` not followed by an expression -/
 theorem parseStatement_say_missing_operand (rec : Rec N) {st : PState N} {s : Tok N}
@@ -445,7 +445,7 @@ theorem parseStatement_say_missing_operand (rec : Rec N) {st : PState N} {s : To
     parseStatement rec st = .err ⟨.expectedPrimaryExpression, errLocOf (st.drop s ts)⟩ := by
   unfold parseStatement parseSay
   rcases hk with hk | hk <;>
-  simp only [P.bind_eq, P.map_eq, P.pure_eq, P.pure, P.bind, current, hs, List.head?_cons, hk,
+  simp only [P.bind_eq, P.map_eq, P.pure_eq_s, P.pure, P.bind, current, hs, List.head?_cons, hk,
     consume_some (m := isAnyKind [.say, .sayAlias]) hs (by simp [isAnyKind, hk]),
     parseExpression_err rec h]
 
@@ -457,12 +457,12 @@ theorem parseStatement_cond_missing_operand (rec : Rec N) {st : PState N} {s : T
     parseStatement rec st = .err ⟨.expectedPrimaryExpression, errLocOf (st.drop s ts)⟩ := by
   unfold parseStatement parseIfStatement parseLoop
   rcases hk with hk | hk | hk
-  · simp only [P.bind_eq, P.map_eq, P.pure_eq, P.pure, P.bind, current, hs, List.head?_cons, hk,
+  · simp only [P.bind_eq, P.map_eq, P.pure_eq_s, P.pure, P.bind, current, hs, List.head?_cons, hk,
       consume_some (m := isKind .if_) hs (by simp [isKind, hk]), parseExpression_err rec h]
-  · simp only [P.bind_eq, P.map_eq, P.pure_eq, P.pure, P.bind, current, hs, List.head?_cons, hk,
+  · simp only [P.bind_eq, P.map_eq, P.pure_eq_s, P.pure, P.bind, current, hs, List.head?_cons, hk,
       consume_some (m := isAnyKind [.while_, .until_]) hs (by simp [isAnyKind, hk]),
       parseExpression_err rec h]
-  · simp only [P.bind_eq, P.map_eq, P.pure_eq, P.pure, P.bind, current, hs, List.head?_cons, hk,
+  · simp only [P.bind_eq, P.map_eq, P.pure_eq_s, P.pure, P.bind, current, hs, List.head?_cons, hk,
       consume_some (m := isAnyKind [.while_, .until_]) hs (by simp [isAnyKind, hk]),
       parseExpression_err rec h]
 
@@ -491,7 +491,7 @@ theorem parseBlock_of_stmtLoopBody_err (rec : Rec N) {st : PState N} {e : ParseE
     (hloc : LocOk st) (hnl : CurNotIn st [.newline]) (h : stmtLoopBody rec st = .err e) :
     parseBlock rec st = .err e := by
   unfold parseBlock
-  simp only [P.bind_eq, P.bind, currentLoc_ok hloc, matchKind_none hnl, h]
+  simp only [P.bind_eq, P.bind, currentLoc_ok_s hloc, matchKind_none hnl, h]
 
 theorem topLoopBody_of_parseBlock_err (rec : Rec N) {st : PState N} {e : ParseErr N}
     (hne : st.toks ≠ []) (h : parseBlock rec st = .err e) : topLoopBody rec st = .err e := by
@@ -506,11 +506,11 @@ theorem parseStatement_some_cur (rec : Rec N) {st st1 : PState N} {s : Stmt N}
     (hp : parseStatement rec st = .ok (some s, st1)) : st.toks ≠ [] ∧ CurNotIn st [.newline] := by
   constructor
   · intro h
-    rw [parseStatement_none rec (fun t ht => by simp [h] at ht)] at hp
+    rw [parseStatement_none_s rec (fun t ht => by simp [h] at ht)] at hp
     cases hp
   · intro t ht hk
     simp at hk
-    rw [parseStatement_none rec (fun t' ht' => by rw [ht] at ht'; cases ht'; exact Or.inr hk)] at hp
+    rw [parseStatement_none_s rec (fun t' ht' => by rw [ht] at ht'; cases ht'; exact Or.inr hk)] at hp
     cases hp
 
 /-- **(a)** at block level -/
@@ -572,10 +572,10 @@ theorem topLoopBody_stray_else (rec : Rec N) {st : PState N} {e : Tok N} {ts : L
     (b := .mk ⟨st.last.line, st.last.idx - st.last.lineStart⟩ []) (by simp [hs]) ?_ hs he
   have h1 : CurNotIn st [.newline] := CurNotIn.cons hs (by simp [he])
   have h2 : parseStatement rec st = .ok (none, st) :=
-    parseStatement_none rec (fun t ht => by
+    parseStatement_none_s rec (fun t ht => by
       rw [hs] at ht; simp only [List.head?_cons, Option.some.injEq] at ht; subst ht; exact Or.inl he)
   unfold parseBlock stmtLoopBody
-  simp only [P.bind_eq, P.bind, currentLoc_ok hloc, matchKind_none h1, h2]
+  simp only [P.bind_eq, P.bind, currentLoc_ok_s hloc, matchKind_none h1, h2]
   rfl
 
 end Parser
